@@ -259,6 +259,10 @@ def dims_of(tag, sp, jp=None):
         d.add("histories: close encounters")
     if sp.get("sa"):
         d.add("histories: Simulationarchive auto-snapshots in the same run")
+    if sp.get("edits"):
+        d.add("histories: user edits between integrate() calls, requests on both sides")
+        if any(e[0] == -1 for e in sp["edits"]):
+            d.add("histories: user edit while paused before the first step, requests on both sides")
     if sp["N"] >= 1024:
         d.add("scale: N > 1024")
     st = jp.get("start")
@@ -277,6 +281,26 @@ def dims_of(tag, sp, jp=None):
     if tag == "no-requests":
         d.add("server: idle server, no request")
     return sorted(d)
+
+
+def apply_edits(sim, sp, k):
+    """user edits of the simulation between integrate() calls (k = index of the call that has just returned; -1 = before the
+    first step).  All edits are absolute assignments, so applying one twice is harmless."""
+    for kk, kind, idx, val in sp.get("edits", []):
+        if kk != k:
+            continue
+        if kind == "m":
+            sim.particles[idx].m = val
+        elif kind == "vx":
+            sim.particles[idx].vx = val
+        elif kind == "dt":
+            sim.dt = val
+        elif kind == "softening":
+            sim.softening = val
+        elif kind == "corrector":
+            sim.ri_whfast.corrector = int(val)
+        elif kind == "epsilon":
+            sim.ri_ias15.epsilon = val
 
 
 def integ_to(sim, sp, tmax):
@@ -475,6 +499,7 @@ class Unit:
         self.crng = SplitMix(jp["delay_seed"] * 7919 + 13)
         self.integrate_calls = 0
         self.ebadf = 0
+        self.edit_probes = 0
         if shim:
             shim.c19_register(ctypes.addressof(self.sim) + offs["server_data"], offs["mutex"], offs["need_copy"])
 
@@ -535,6 +560,24 @@ class Unit:
             self.bodies.append((self.done.is_set(), b, t0, time.time()))
             time.sleep(self.crng.uniform(0, jp["client_sleep_ms"]) / 1000.0)
 
+    def edit_probe(self, k):
+        """request -> user edit (no step) -> request: the second body must be the live state"""
+        if not any(e[0] == k for e in self.sp.get("edits", [])) or self.port is None:
+            return
+        try:
+            a = http_get(self.port, "/simulation")
+            apply_edits(self.sim, self.sp, k)
+            b = http_get(self.port, "/simulation")
+        except OSError as e:
+            self.errors.append("edit probe: " + repr(e))
+            apply_edits(self.sim, self.sp, k)
+            return
+        live = sim_bytes(self.rebound, self.sim)
+        for nm, x in (("A", a), ("B", b), ("L", live)):
+            with open(os.path.join(self.out, "edit%02d_%s.bin" % (k + 1, nm)), "wb") as f:
+                f.write(x)
+        self.edit_probes += 1
+
     def integrate_all(self, between=None):
         sim, sp, shim = self.sim, self.sp, self.shim
         sign = 1 if sp["dt"] > 0 else -1
@@ -555,6 +598,8 @@ class Unit:
                 if sim._status == 5 and (tmax - sim.t) * sign > 1e-12 * abs(tmax) and self.integrate_calls < 200:
                     continue
                 break
+            if sp.get("edits"):
+                self.edit_probe(k)
             if between:
                 between(k, "after")
         self.done.set()
@@ -614,7 +659,7 @@ class Unit:
                 f.write(b)
             flags.append(any(t0 <= e and s_ <= t1 + 0.002 for s_, e in self.stops))
         res.update(ok=True, nbodies=len(self.bodies), errors=self.errors, steps_done=int(sim.steps_done), t=sim.t,
-                   near_stop=flags, integrate_calls=self.integrate_calls, client_ebadf=self.ebadf, stop_cycles=len(self.stops),
+                   near_stop=flags, edit_probes=self.edit_probes, integrate_calls=self.integrate_calls, client_ebadf=self.ebadf, stop_cycles=len(self.stops),
                    heartbeat_calls=(sim._c19_hbcount[0] if hasattr(sim, "_c19_hbcount") else None),
                    bodies_during_integration=sum(1 for x in self.bodies if not x[0]))
         json.dump(res, open(os.path.join(out, "result.json"), "w"))
@@ -744,6 +789,8 @@ def worker(argv):
             if th:
                 th.start()
             time.sleep(u.crng.uniform(0, 8.0) / 1000.0)
+            if sp.get("edits"):
+                u.edit_probe(-1)               # request, edit while paused (no step), request
             progress("resume with the space key")
             try:
                 http_get(u.port, "/keyboard/32")    # space: resume (server.c:353-357)
@@ -769,7 +816,7 @@ def worker(argv):
         shim.c19_dump(os.path.join(out, "trace.txt").encode())
         res["counts"] = {n: shim.c19_count(i) for i, n in enumerate(
             ["iEnter", "iChkBegin", "iChkSync", "iChkEnd1", "iChkEnd0", "iSpin", "iLock", "iStepBegin", "iStepEnd",
-             "iUnlock", "iEpiSync", "iLeave", "sLock", "sSerBegin", "sSerEnd", "sUnlock", "xStart", "xStop"])}
+             "iUnlock", "iEpiSync", "iLeave", "sLock", "sSerBegin", "sSerEnd", "sUnlock", "xStart", "xStop", "sSent"])}
         res["late_spins"] = shim.c19_count(-1)
         res["foreign_ser"] = shim.c19_count(-2)
         res["double_close"] = shim.c19_count(-3)
@@ -956,6 +1003,8 @@ APPLICABLE_DIMENSIONS = [
     "callbacks: additional_forces (velocity dependent)", "callbacks: heartbeat together with the server",
     "histories: collisions + merges (N changes)", "histories: tree code", "histories: close encounters",
     "histories: Simulationarchive auto-snapshots in the same run", "histories: copy / save / load mid-run",
+    "histories: user edits between integrate() calls, requests on both sides",
+    "histories: user edit while paused before the first step, requests on both sides",
     "histories: restore from an archive snapshot, in parallel threads",
     "scale: N > 1024",
     "server: started while paused, resumed by the space key", "server: started from another thread while integrating",
@@ -984,11 +1033,20 @@ def reference_run(rebound, fmt, sp, with_heartbeat, archive=None):
             table.setdefault(int(s.steps_done), []).append(("A", fmt.canon(sim_bytes(rebound, s)), call[0], s.t))
         sim.heartbeat = hb
     ends = []
+    if with_heartbeat and sp.get("edits"):
+        table.setdefault(0, []).append(("E", fmt.canon(sim_bytes(rebound, sim)), -1, sim.t))     # before the first edit
+    apply_edits(sim, sp, -1)
+    if with_heartbeat and sp.get("edits"):
+        table.setdefault(0, []).append(("E", fmt.canon(sim_bytes(rebound, sim)), -1, sim.t))
     for k, tmax in enumerate(sp["tmax"]):
         call[0] = k
         integ_to(sim, sp, tmax)
         if with_heartbeat:
             table.setdefault(int(sim.steps_done), []).append(("E", fmt.canon(sim_bytes(rebound, sim)), k, sim.t))
+        if sp.get("edits"):
+            apply_edits(sim, sp, k)
+            if with_heartbeat:          # the state after the user's edit is a state of the run, too
+                table.setdefault(int(sim.steps_done), []).append(("E", fmt.canon(sim_bytes(rebound, sim)), k, sim.t))
         ends.append(int(sim.steps_done))
     return sim_bytes(rebound, sim), table, ends
 
@@ -1036,7 +1094,9 @@ def continue_to_end(rebound, fmt, b, sp, tmpdir, restore_dt=None, limit_s=30.0):
     sign = 1 if sp["dt"] > 0 else -1
     first = True
     t_end = time.time() + limit_s
-    for tmax in sp["tmax"]:
+    if int(s.steps_done) == 0:
+        apply_edits(s, sp, -1)
+    for k_call, tmax in enumerate(sp["tmax"]):
         # reb_check_exit (rebound.c:684-688) regards a call as finished when |t - tmax| < 1e-12 |tmax|: t after the
         # shortened step can be one ulp off tmax
         reached = abs(tmax - s.t) < 1e-12 * abs(tmax)
@@ -1045,10 +1105,15 @@ def continue_to_end(rebound, fmt, b, sp, tmpdir, restore_dt=None, limit_s=30.0):
             if restore_dt is not None and first:
                 s.dt = restore_dt
             first = False
+            apply_edits(s, sp, k_call)
         elif reached and restore_dt is not None and first:
             s.synchronize()
             s.dt = restore_dt
             first = False
+            apply_edits(s, sp, k_call)
+        elif reached:
+            # the snapshot was taken idle after this call: the user's edit that follows it still has to happen (idempotent)
+            apply_edits(s, sp, k_call)
     return sim_bytes(rebound, s)
 
 
@@ -1103,6 +1168,26 @@ def analyse_bodies(c, rebound, fmt, sp, res, tmpdir, stats, tag, racy=None):
     if Fmt.diff(F0, Fs):
         c.violation("serving-alters-trajectory", "final state with the server answering requests differs from the run without server (%s): fields %s"
                     % (sp["integ"], Fmt.diff(F0, Fs)[:6]), dict(rep, nbodies=res["nbodies"]))
+    # request -> user edit without a step -> request: the second body must be the live (edited) state, the first the state before
+    import glob
+    for fb in sorted(glob.glob(os.path.join(out, "edit*_B.bin"))):
+        A_ = fmt.canon(open(fb.replace("_B.bin", "_A.bin"), "rb").read(), MASK)
+        B_ = fmt.canon(open(fb, "rb").read(), MASK)
+        L_ = fmt.canon(open(fb.replace("_B.bin", "_L.bin"), "rb").read(), MASK)
+        stats["edit_probes"] = stats.get("edit_probes", 0) + 1
+        c.count((tag, sp["integ"], "edit-probe", os.path.basename(fb)))
+        if A_ is None or B_ is None or L_ is None:
+            c.violation("served-body-incomplete", "body around a user edit is not a complete snapshot (%s)" % sp["integ"], dict(rep, probe=os.path.basename(fb)))
+            continue
+        dd_ = Fmt.diff(B_, L_)
+        if dd_:
+            stale = not Fmt.diff(A_, B_)
+            c.violation("served-snapshot-is-not-the-current-state",
+                        "after a user edit between integrate() calls (no step taken) the served snapshot differs from the live simulation in %s%s (%s)"
+                        % (dd_[:6], ": it is the state BEFORE the edit" if stale else "", sp["integ"]),
+                        dict(rep, probe=os.path.basename(fb), edits=sp.get("edits"), fields=dd_[:8]))
+        elif not Fmt.diff(A_, B_):
+            c.violation("edit-probe-vacuous", "the user edit changed nothing in the serialisation (%s)" % sp["integ"], dict(rep, edits=sp.get("edits")))
     # window boundaries: steps_done values at which an unlocked adjustment of the integrator can be observed
     window = set()
     for e in ends:
@@ -1433,6 +1518,28 @@ def scenarios(c):
         integ = rng.choice(["whfast", "leapfrog"])
         sp = dict(integ=integ, N=sizes[integ], dt=dts[integ], seed=rng.randint(1, 10 ** 6), tmax=tm(integ, 2, 2.0))
         S.append(("keyboard", sp, dict(std, keyboard=({"rounds": 3, "quit": True} if quit_ else {"rounds": 3}), delay_prob=10)))
+    # user edits between integrate() calls (mass, velocity, dt, an option; no step in between) with a request on either side,
+    # also while the simulation sits PAUSED before its first step
+    def edit_list(integ, ncalls, paused):
+        kinds = ["m", "vx", "dt", "softening"] + (["corrector"] if integ == "whfast" else []) + (["epsilon"] if integ == "ias15" else [])
+        rng.shuffle(kinds)
+        out = []
+        for k in ([-1] if paused else []) + list(range(ncalls)):
+            kind = kinds[(k + 1) % len(kinds)]
+            val = {"m": rng.uniform(1e-6, 5e-5), "vx": rng.uniform(-0.2, 0.2), "dt": dts[integ] * rng.uniform(0.7, 1.3),
+                   "softening": rng.uniform(1e-4, 1e-2), "corrector": rng.choice([3, 5, 7]), "epsilon": rng.choice([1e-8, 1e-10])}[kind]
+            if kind == "dt" and (integ in ("ias15", "bs") or k == -1):
+                kind, val = "m", rng.uniform(1e-6, 5e-5)
+            out.append([k, kind, rng.randint(1, 3), val])
+        return out
+    for integ in (["whfast", "ias15", "leapfrog", "mercurius"] if c.thorough else [rng.choice(["whfast", "leapfrog"])]):
+        tms = tm(integ, 4, 0.5)
+        sp = dict(integ=integ, N=sizes[integ] // 2, dt=dts[integ], seed=rng.randint(1, 10 ** 6), tmax=tms, edits=edit_list(integ, 4, False))
+        S.append(("user-edits", sp, dict(std, max_bodies=12)))
+    for integ in (["whfast", "ias15", "leapfrog"] if c.thorough else [rng.choice(["whfast", "ias15", "leapfrog"])]):
+        tms = tm(integ, 3, 0.5)
+        sp = dict(integ=integ, N=sizes[integ] // 2, dt=dts[integ], seed=rng.randint(1, 10 ** 6), tmax=tms, edits=edit_list(integ, 3, True))
+        S.append(("user-edits-paused", sp, dict(std, max_bodies=12, start="paused", start_delay_ms=rng.uniform(3, 15), linger_ms=5)))
     # the server is started before and stopped after every integrate() call while the client keeps knocking
     for integ in (["whfast", "ias15", "leapfrog"] if c.thorough else [rng.choice(["whfast", "ias15", "leapfrog"])]):
         sp = dict(integ=integ, N=sizes[integ], dt=dts[integ], seed=rng.randint(1, 10 ** 6), tmax=tm(integ, 5, 0.5))
@@ -1523,7 +1630,7 @@ def one_scenario(d, exe, shim, offs, ptime, deadline, si, nS, tag, sp, jp, seed,
         R.count(("no-trace", tag, sp["integ"]))
         return L
     cnt = res.get("counts", {})
-    if cnt.get("iStepBegin", 0) != res["steps_done"] or cnt.get("sSerBegin", 0) < res["nbodies"] or \
+    if cnt.get("iStepBegin", 0) != res["steps_done"] or (cnt.get("sSerBegin", 0) == 0 and cnt.get("sSent", 0) == 0 and res["nbodies"] > 0) or \
             cnt.get("iChkBegin", 0) == 0 or (cnt.get("iLock", 0) == 0 and cnt.get("sLock", 0) == 0 and res["nbodies"] > 0):
         # the shim did not see the library's calls (PLT interposition ineffective): cannot validate
         raise Infra("shim blind in %s: counts %s steps_done %d bodies %d" % (what, cnt, res["steps_done"], res["nbodies"]))
@@ -1559,6 +1666,9 @@ def one_scenario(d, exe, shim, offs, ptime, deadline, si, nS, tag, sp, jp, seed,
         L["racy"] = f[8] != "clean"
     L["verdict"] = verdict[0]
     L["meta"] = (tag, sp, res, len(toks))
+    if res["nbodies"] > cnt.get("sSerEnd", 0):
+        L["broken"] = ("the client received %d /simulation bodies but reb_simulation_save_to_stream ran only %d times on the server thread "
+                       "(%s, %s): a response was sent without a serialisation under the mutex" % (res["nbodies"], cnt.get("sSerEnd", 0), tag, sp["integ"]))
     if res.get("double_close", 0) > 0 or res.get("client_ebadf", 0) > 0:
         L["stats"]["server_double_close_calls"] = res.get("double_close", 0)
         L["stats"]["client_requests_hit_by_EBADF"] = res.get("client_ebadf", 0)
@@ -1624,6 +1734,8 @@ def server_part(c, d, exe, shim, offs, boost, deadline):
             c.cov.setdefault(k, [])
             c.cov[k] += v
         overlap += L["overlap"]
+        if L.get("broken"):
+            c.corr_break(L["broken"])
         nracy += 1 if L["racy"] else 0
         if L["verdict"] is not None:
             verdicts.append(L["verdict"])
